@@ -79,6 +79,51 @@ CHECKS = {
              'last write, and a removed/rejected consumer must be creatable '
              'again with generation null. Bounded random exploration.',
         note='SQLite; serial; probe runs on a snapshot that is restored'),
+    'C02': dict(
+        engine='candidate-oracle', category='exploration', design='4.C02',
+        technique='property-based testing of (state, query, microversion) '
+                  'triples: shape predicate by brute-force group assignment, '
+                  'round-trip claim (PUT of each returned entry on a snapshot), '
+                  'summaries vs raw dump',
+        text='Each returned allocation request is explained by an assignment '
+             'of the request groups, sent back unchanged as a new consumer\'s '
+             'allocations (must be 204 and store exactly those rows) and its '
+             'provider summaries are recomputed from raw rows. Bounded random '
+             'exploration of states and queries in the C03 scope.',
+        note='SQLite; claim executed on a restored snapshot so entries are '
+             'independent; <= 12 entries per response'),
+    'C03': dict(
+        engine='candidate-oracle', category='exploration', design='4.C03',
+        technique='differential property-based testing against a brute-force '
+                  'declarative reference enumerator (pv/acref.py) with set '
+                  'equality of (allocations, mappings)',
+        text='Random states (nesting, sharing at root and nested positions, '
+             'aggregates, traits, usage) x random valid queries from a grammar '
+             'over all filters and request-wide parameters at 1.10-1.39; the '
+             'response must equal the reference set exactly (omitted/spurious '
+             'reported). Bounded random exploration; the reference encodes the '
+             'documents, ambiguities are listed in DESIGN.md.',
+        note='trusted: pv/acref.py rules (each cites its source); SQLite'),
+    'C13': dict(
+        engine='candidate-oracle', category='exploration', design='4.C13',
+        technique='differential property-based testing against a set '
+                  'comprehension over the raw dump',
+        text='Random states x random combinations of name/uuid/in_tree/'
+             'member_of/required/resources filters at the versions allowing '
+             'each form; result set must equal the comprehension; unknown '
+             'names must be 400. Bounded random exploration.',
+        note='SQLite; oracle = acref.list_providers'),
+    'C20': dict(
+        engine='candidate-oracle', category='exploration', design='4.C20',
+        technique='metamorphic property-based testing: limited/randomised '
+                  'results vs the unlimited result of the same state and query',
+        text='For generated cases every limit 1..M+1, both randomisation '
+             'settings and several seeds: length min(N, M), sub-multiset of the '
+             'unlimited result, correct summaries, stable order when '
+             'randomisation is off, permutation when on. Bounded random '
+             'exploration.',
+        note='unlimited result taken from placement itself (its correctness '
+             'is C03); random module seeded by the harness'),
 }
 
 NOT_APPLICABLE = {}
@@ -129,6 +174,10 @@ def main():
                                    'C12', 'C19'],
              'kind_free_text': 'Hypothesis RuleBasedStateMachine driving the '
                                'real WSGI app; raw-SQL oracles'},
+            {'name': 'candidate-oracle', 'path': 'pv/engb.py',
+             'serves_properties': ['C02', 'C03', 'C13', 'C20'],
+             'kind_free_text': 'Hypothesis-generated states and structured '
+                               'queries; brute-force reference pv/acref.py'},
         ],
         'checks': checks,
         'not_applicable': na,
